@@ -776,7 +776,7 @@ func TestC06_Crafted(t *testing.T) {
 // values at every position) and every truncation of the DER encoding of a
 // valid signature.
 func TestC06_SubstExhaustive(t *testing.T) {
-	nb := h.Scale(1, 8)
+	nb := h.Scale(1, 6)
 	h.MarkExhaustive("subst-exhaustive")
 	h.Sweep(t, h.P{Name: "subst-exhaustive"}, func(emit func(candCase)) {
 		for _, b := range honestBases(h.Seed+0x51, int(h.Seed%9), nb) {
@@ -969,7 +969,7 @@ func (rc randCase) expand() (candCase, bool) {
 }
 
 func TestC06_Random(t *testing.T) {
-	h.Prop(t, h.P{Name: "random", Quick: 2000, Thorough: 40000}, func(rt *rapid.T) randCase {
+	h.Prop(t, h.P{Name: "random", Quick: 2000, Thorough: 30000}, func(rt *rapid.T) randCase {
 		rc := randCase{
 			KeyKind: rapid.IntRange(0, 7).Draw(rt, "keyKind"),
 			KeySeed: rapid.Uint64().Draw(rt, "keySeed"),
